@@ -16,3 +16,18 @@ def run(ctx):
                        seqs_quick=(12, 16), seqs_thorough=(150, 26))
     stages.mgr_family(ctx, ["C08.", "C04.rejectedUpdateFails"], ["all"], lambda s: s["stim"]["kind"] in ("OnDataQueued", "OnDataReceived", "UpdateValidation"),
                       quick_n=3000, model=not ctx.quick(), sims=False, invariants=["M_C04_Faithful"])
+    # transport level, real manager + real graphsync adapter: the re-validation's resume must be the last word the request hears
+    b = ctx.go_bin("lockx")
+    out = ctx.path("cbrace.ndjson")
+    ctx.must_run_go(b, "TestCallbackRace", env={"VERIF_OUT": out}, timeout=300)
+    n, verdicts = stages.judge(ctx, out, module="CbRaceJudge")
+    idx = stages.index_obs(out)
+    for v in verdicts:
+        c = idx[v["case"]]
+        if v["rule"] == "harness":
+            raise vlib.Inconclusive("TestCallbackRace: " + c["err"])
+        ctx.violation({"rule": v["rule"], "mode": v["op"]}, "%s violated (%s): transport instructions %s, channel says responder paused=%s" % (v["rule"], v["op"], c["order"], c["rpView"]), detail=c)
+    for c in idx.values():
+        ctx.traces += 1
+        ctx.evaluations += 1
+        ctx.distinct.add(("cbrace", c["mode"], tuple(c["order"])))
